@@ -239,14 +239,10 @@ theorem seq_gateFire (s : State) (ch : Option Int) (ok : Bool) : SeatsEq (gateFi
   · exact (seq_openCore _ ch ok).trans hg
 
 theorem seq_retryOpen (s : State) (ch : Option Int) (ok : Bool) : SeatsEq (retryOpen s ch ok).1 s := by
-  unfold retryOpen
-  split
-  · exact ⟨rfl, rfl, rfl⟩
-  · split
-    · exact ⟨rfl, rfl, rfl⟩
-    · split
-      · exact ⟨rfl, rfl, rfl⟩
-      · exact seq_openCore s ch ok
+  rcases retryOpen_cases s ch ok with h | h | ⟨_, _, _, _, _, h⟩
+  · rw [h]; exact ⟨rfl, rfl, rfl⟩
+  · rw [h]; exact ⟨rfl, rfl, rfl⟩
+  · rw [h]; exact seq_openCore s ch ok
 
 /-- a top-up by `PlayerReserve` of somebody already at the table -/
 theorem seq_reserve_known (s : State) (j : Join) (ch : List Int) (i : Nat) (h : findPlayerIdx s j.id = some i) :
